@@ -1,6 +1,12 @@
 """Translator T (C14): straight-line `ibz_*` bodies of src/quaternion/ref/generic/algebra.c -> lean/SqiGen/QuatAlg.lean.
 
-Translated: `quat_alg_mul` (the coordinate formula of the algebra (-1,-p)) and `quat_alg_conj`.
+Translated: `quat_alg_mul` (the coordinate formula of the algebra (-1,-p)), `quat_alg_conj`, and (extension d3)
+`quat_alg_coord_add/sub`, `quat_alg_equal_denom`, `quat_alg_add`, `quat_alg_sub`, `quat_alg_norm`, `quat_alg_trace` (the two
+arguments handed to `ibq_set`), `quat_alg_scalar`, `quat_alg_elem_copy_ibz`, `quat_alg_elem_mul_by_scalar`.
+Extension of the subset: fixed `for (int i = 0; i < 4; i++) { ... }` loops are unrolled textually; `x.f` = `x->f`;
+`ibz_gcd` -> `Int.gcd` (as Int), `ibz_div(q, r, a, b)` -> `Int.tdiv` / `Int.tmod`; `quat_alg_elem_init` (denom 1, coords 0);
+`ibq_set(res, n, d)` records the pair (n, d); calls of already translated functions of this file become calls of the
+generated definitions (actual arguments resolved through the same SSA environment).
 Accepted subset (anything else is refused loudly): local declarations, `ibz_init/finalize`,
 `quat_alg_coord_init/finalize`, `ibz_set(&x, <int literal>)`, `ibz_copy/neg(&d, &s)`, `ibz_add/sub/mul(&d, &a, &b)`
 on the operands `prod`, `sum[i]`, `<arg>->denom`, `<arg>->coord[i]`, `alg->p`.  Output: one Lean `def` per function
@@ -33,7 +39,25 @@ def func_body(src, name):
             raise TranslateError("unbalanced braces in %s" % name)
         depth += {"{": 1, "}": -1}.get(src[i], 0)
         i += 1
-    return m.group(1), src[m.end():i - 1]
+    return m.group(1), unroll(src[m.end():i - 1], name)
+
+
+FOR4 = re.compile(r"for\s*\(\s*int\s+(\w+)\s*=\s*0\s*;\s*(\w+)\s*<\s*4\s*;\s*(\w+)\+\+\s*\)\s*\{([^{}]*)\}")
+
+
+def unroll(body, name):
+    def rep(m):
+        v = m.group(1)
+        if m.group(2) != v or m.group(3) != v:
+            raise TranslateError("%s: loop header not in subset: %r" % (name, m.group(0)[:60]))
+        blk = m.group(4)
+        if re.search(r"\b%s\b(?!\s*\])" % v, re.sub(r"\[\s*%s\s*\]" % v, "[]", blk)):
+            raise TranslateError("%s: loop variable used outside an index" % name)
+        return "".join(re.sub(r"\[\s*%s\s*\]" % v, "[%d]" % k, blk) for k in range(4))
+    body = FOR4.sub(rep, body)
+    if re.search(r"\b(for|while|if|goto|switch)\b", body):
+        raise TranslateError("%s: control flow outside the subset" % name)
+    return body
 
 
 def norm(e):
@@ -44,25 +68,48 @@ def norm(e):
     while e.startswith("(") and e.endswith(")"):
         e = e[1:-1]
     e = e.replace("(*", "").replace(")", "").replace("(", "")
+    e = re.sub(r"\.(denom|coord)\b", r"->\1", e)
     return e
 
 
-OPERAND = re.compile(r"^(?:[A-Za-z_]\w*|[A-Za-z_]\w*\[\d\]|[A-Za-z_]\w*->(?:denom|p|coord\[\d\]))$")
+OPERAND = re.compile(r"^(?:[A-Za-z_]\w*|[A-Za-z_]\w*\[\d\]|[A-Za-z_]\w*->(?:denom|p|num|den|coord\[\d\]))$")
+
+# signatures of the translated functions (for calls): (kind, direction) per C parameter, in order
+ELEM = lambda x: ["%s->denom" % x] + ["%s->coord[%d]" % (x, i) for i in range(4)]
+COORD = lambda x: ["%s[%d]" % (x, i) for i in range(4)]
+SIGS = {
+    "quat_alg_coord_add": [("coord", "out"), ("coord", "in"), ("coord", "in")],
+    "quat_alg_coord_sub": [("coord", "out"), ("coord", "in"), ("coord", "in")],
+    "quat_alg_equal_denom": [("elem", "out"), ("elem", "out"), ("elem", "in"), ("elem", "in")],
+    "quat_alg_conj": [("elem", "out"), ("elem", "in")],
+    "quat_alg_mul": [("elem", "out"), ("elem", "in"), ("elem", "in"), ("alg", "in")],
+}
 
 
-def translate(src, name, inputs, outputs, out_arg):
+def fields(kind, x):
+    return {"elem": ELEM, "coord": COORD, "alg": lambda y: ["%s->p" % y]}[kind](x)
+
+
+def proj(k, n):
+    return ".2" * k + ("" if k == n - 1 else ".1") if n > 1 else ""
+
+
+def translate(src, name, inputs, outputs, out_arg, check_alias=True, done=()):
     """inputs: dict operand -> lean variable; outputs: list of operands read at the end"""
     _, body = func_body(src, name)
     env = dict(inputs)
     lets, n = [], [0]
     written_out = set()
+    outs = (out_arg,) if isinstance(out_arg, str) else tuple(out_arg)
+    local = set()
 
     def rd(op):
         op = norm(op)
         if not OPERAND.match(op):
             raise TranslateError("%s: operand not in subset: %r" % (name, op))
         m = re.match(r"^(\w+)->(.+)$", op)
-        if m and m.group(1) != out_arg and m.group(1) != "alg" and m.group(2) in written_out:
+        if m and m.group(1) not in outs and m.group(1) not in local and m.group(1) != "alg" \
+                and m.group(2) in written_out and check_alias:
             raise TranslateError("%s: alias hazard: %s read after %s->%s was written" % (name, op, out_arg, m.group(2)))
         if op not in env:
             raise TranslateError("%s: read of unassigned operand %s" % (name, op))
@@ -73,10 +120,12 @@ def translate(src, name, inputs, outputs, out_arg):
         if not OPERAND.match(op):
             raise TranslateError("%s: destination not in subset: %r" % (name, op))
         m = re.match(r"^(\w+)->(.+)$", op)
-        if m:
-            if m.group(1) != out_arg:
+        if m and m.group(1) not in local:
+            if m.group(1) not in outs:
                 raise TranslateError("%s: write to input %s" % (name, op))
             written_out.add(m.group(2))
+        if not m and op.split("[")[0] not in local and op.split("[")[0] not in outs:
+            raise TranslateError("%s: write to input %s" % (name, op))
         n[0] += 1
         v = "t%d" % n[0]
         lets.append("  let %s : Int := %s" % (v, expr))
@@ -86,13 +135,50 @@ def translate(src, name, inputs, outputs, out_arg):
         st = st.strip()
         if not st:
             continue
-        if re.match(r"^(ibz_t|quat_alg_coord_t|quat_alg_elem_t)\s+[\w\s,]+$", st):
+        md = re.match(r"^(ibz_t|quat_alg_coord_t|quat_alg_elem_t)\s+([\w\s,]+)$", st)
+        if md:
+            local.update(x.strip() for x in md.group(2).split(","))
             continue
         m = re.match(r"^(\w+)\s*\((.*)\)$", st, re.S)
         if not m:
             raise TranslateError("%s: statement not in subset: %r" % (name, st))
         f, args = m.group(1), [a for a in re.split(r",(?![^\[]*\])", m.group(2))]
-        if f in ("ibz_finalize", "quat_alg_coord_finalize"):
+        if f in ("ibz_finalize", "quat_alg_coord_finalize", "quat_alg_elem_finalize"):
+            continue
+        if f == "quat_alg_elem_init":
+            x = norm(args[0])
+            wr("%s->denom" % x, "1")
+            for i in range(4):
+                wr("%s->coord[%d]" % (x, i), "0")
+            continue
+        if f == "ibz_gcd":
+            a, b = rd(args[1]), rd(args[2])
+            wr(args[0], "((Int.gcd %s %s : Nat) : Int)" % (a, b)); continue
+        if f == "ibz_div":
+            a, b = rd(args[2]), rd(args[3])
+            wr(args[0], "Int.tdiv %s %s" % (a, b))
+            wr(args[1], "Int.tmod %s %s" % (a, b)); continue
+        if f == "ibq_set":
+            a, b = rd(args[1]), rd(args[2])
+            x = norm(args[0])
+            wr("%s->num" % x, a); wr("%s->den" % x, b); continue
+        if f in SIGS and f in done:
+            sig = SIGS[f]
+            if len(args) != len(sig):
+                raise TranslateError("%s: call of %s with %d arguments" % (name, f, len(args)))
+            ins = []
+            for a, (kind, d) in sorted(zip(args, sig), key=lambda z: z[1][0] != "alg"):  # generated defs take p first
+                if d == "in":
+                    ins += [rd(o) for o in fields(kind, norm(a))]
+            n[0] += 1
+            c = "c%d" % n[0]
+            lets.append("  let %s := %s %s" % (c, f, " ".join(ins)))
+            ows = []
+            for a, (kind, d) in zip(args, sig):
+                if d == "out":
+                    ows += fields(kind, norm(a))
+            for k, o in enumerate(ows):
+                wr(o, "%s%s" % (c, proj(k, len(ows))))
             continue
         if f == "ibz_init":
             wr(args[0], "0"); continue
@@ -121,22 +207,95 @@ def translate(src, name, inputs, outputs, out_arg):
     return lets, res
 
 
+def translate_pred(src, name, inputs, done=()):
+    """int-valued predicates: `int res = 1 | <translated predicate>(&arg)`, `res &= ibz_is_zero(&op)` (ibz_is_zero returns 0/1,
+    so `&=` on an int that is 0/1 is the Boolean and), `return (res)`.  Result: Bool let-chain."""
+    m = re.search(r"\bint\s+%s\s*\(([^)]*)\)\s*\{" % re.escape(name), src)
+    if not m:
+        raise TranslateError("function %s not found in algebra.c" % name)
+    j, depth = m.end(), 1
+    while depth:
+        depth += {"{": 1, "}": -1}.get(src[j], 0)
+        j += 1
+    body = unroll(src[m.end():j - 1], name)
+    lets, cur, k, ret = [], None, 0, None
+    for st in body.split(";"):
+        st = st.strip()
+        if not st:
+            continue
+        if ret is not None:
+            raise TranslateError("%s: statement after return" % name)
+        k += 1
+        m1 = re.match(r"^int\s+res\s*=\s*1$", st)
+        m2 = re.match(r"^int\s+res\s*=\s*(\w+)\s*\((.*)\)$", st)
+        m3 = re.match(r"^res\s*&=\s*ibz_is_zero\s*\((.*)\)$", st)
+        m4 = re.match(r"^return\s*\(?\s*res\s*\)?$", st)
+        if m1:
+            lets.append("  let r%d : Bool := true" % k); cur = "r%d" % k
+        elif m2 and m2.group(1) in done:
+            x = norm(m2.group(2))
+            if not x.endswith("->coord"):
+                raise TranslateError("%s: argument not in subset: %s" % (name, x))
+            lets.append("  let r%d : Bool := %s %s" % (k, m2.group(1), " ".join(inputs["%s[%d]" % (x, i)] for i in range(4))))
+            cur = "r%d" % k
+        elif m3 and cur:
+            op = norm(m3.group(1))
+            if op not in inputs:
+                raise TranslateError("%s: operand not an input: %s" % (name, op))
+            lets.append("  let r%d : Bool := %s && (%s == 0)" % (k, cur, inputs[op])); cur = "r%d" % k
+        elif m4 and cur:
+            ret = cur
+        else:
+            raise TranslateError("%s: statement not in subset: %r" % (name, st))
+    if ret is None:
+        raise TranslateError("%s: no return" % name)
+    return lets, ret
+
+
 def generate(repo, outdir):
     path = os.path.join(repo, "src/quaternion/ref/generic/algebra.c")
     src = strip_c_comments(open(path).read())
     elem = lambda x: {"%s->denom" % x: "%sd" % x, **{"%s->coord[%d]" % (x, i): "%s%d" % (x, i) for i in range(4)}}
+    coord = lambda x: {"%s[%d]" % (x, i): "%s%d" % (x, i) for i in range(4)}
+    T5 = "Int × Int × Int × Int × Int"
+    T4 = "Int × Int × Int × Int"
     out = ["/- GENERATED by tools/translate/quatalg.py from src/quaternion/ref/generic/algebra.c — do not edit. -/",
-           "namespace SqiGen.QuatAlg", ""]
-    lets, res = translate(src, "quat_alg_mul", {**elem("a"), **elem("b"), "alg->p": "p"},
-                          ["res->denom"] + ["res->coord[%d]" % i for i in range(4)], "res")
-    out += ["/-- `quat_alg_mul`: (denom, coord0..3) of the result -/",
-            "def quat_alg_mul (p ad a0 a1 a2 a3 bd b0 b1 b2 b3 : Int) : Int × Int × Int × Int × Int :="] + lets + \
-           ["  (%s)" % ", ".join(res), ""]
-    lets, res = translate(src, "quat_alg_conj", elem("x"),
-                          ["conj->denom"] + ["conj->coord[%d]" % i for i in range(4)], "conj")
-    out += ["/-- `quat_alg_conj` -/",
-            "def quat_alg_conj (xd x0 x1 x2 x3 : Int) : Int × Int × Int × Int × Int :="] + lets + \
-           ["  (%s)" % ", ".join(res), "", "end SqiGen.QuatAlg", ""]
+           "set_option linter.unusedVariables false", "namespace SqiGen.QuatAlg", ""]
+    done = []
+    # (name, inputs, outputs, out args, lean parameter list, lean result type, alias check)
+    # order = dependency order of the calls.  quat_alg_equal_denom is only ever called with fresh locals as outputs
+    # (quat_alg_add / quat_alg_sub, checked below by translating exactly those calls), so no alias check for it.
+    jobs = [
+        ("quat_alg_mul", {**elem("a"), **elem("b"), "alg->p": "p"}, ELEM("res"), "res",
+         "p ad a0 a1 a2 a3 bd b0 b1 b2 b3", T5, True),
+        ("quat_alg_conj", elem("x"), ELEM("conj"), "conj", "xd x0 x1 x2 x3", T5, True),
+        ("quat_alg_coord_add", {**coord("a"), **coord("b")}, COORD("res"), "res", "a0 a1 a2 a3 b0 b1 b2 b3", T4, True),
+        ("quat_alg_coord_sub", {**coord("a"), **coord("b")}, COORD("res"), "res", "a0 a1 a2 a3 b0 b1 b2 b3", T4, True),
+        ("quat_alg_equal_denom", {**elem("a"), **elem("b")}, ELEM("res_a") + ELEM("res_b"), ("res_a", "res_b"),
+         "ad a0 a1 a2 a3 bd b0 b1 b2 b3", T5 + " × " + T5, False),
+        ("quat_alg_add", {**elem("a"), **elem("b")}, ELEM("res"), "res", "ad a0 a1 a2 a3 bd b0 b1 b2 b3", T5, True),
+        ("quat_alg_sub", {**elem("a"), **elem("b")}, ELEM("res"), "res", "ad a0 a1 a2 a3 bd b0 b1 b2 b3", T5, True),
+        ("quat_alg_norm", {**elem("a"), "alg->p": "p"}, ["res->num", "res->den"], "res", "p ad a0 a1 a2 a3", "Int × Int", True),
+        ("quat_alg_trace", elem("a"), ["res->num", "res->den"], "res", "ad a0 a1 a2 a3", "Int × Int", True),
+        ("quat_alg_scalar", {"numerator": "num", "denominator": "den"}, ELEM("elem"), "elem", "num den", T5, True),
+        ("quat_alg_elem_copy_ibz", {"denom": "d", **{"coord%d" % i: "c%d_" % i for i in range(4)}}, ELEM("elem"), "elem",
+         "d c0_ c1_ c2_ c3_", T5, True),
+        ("quat_alg_elem_mul_by_scalar", {"scalar": "s", **elem("elem")}, ELEM("res"), "res",
+         "s elemd elem0 elem1 elem2 elem3", T5, True),
+    ]
+    for name, inputs, outputs, oa, params, ty, chk in jobs:
+        lets, res = translate(src, name, inputs, outputs, oa, check_alias=chk, done=tuple(done))
+        out += ["/-- `%s`: %s -/" % (name, ", ".join(outputs)),
+                "def %s (%s : Int) : %s :=" % (name, params, ty)] + lets + ["  (%s)" % ", ".join(res), ""]
+        done.append(name)
+    lets, r = translate_pred(src, "quat_alg_coord_is_zero", coord("x"))
+    out += ["/-- `quat_alg_coord_is_zero` (C int 0/1 as Bool) -/",
+            "def quat_alg_coord_is_zero (x0 x1 x2 x3 : Int) : Bool :="] + lets + ["  " + r, ""]
+    lets, r = translate_pred(src, "quat_alg_elem_is_zero", {"x->coord[%d]" % i: "x%d" % i for i in range(4)},
+                             done=("quat_alg_coord_is_zero",))
+    out += ["/-- `quat_alg_elem_is_zero` (the denominator is not read) -/",
+            "def quat_alg_elem_is_zero (xd x0 x1 x2 x3 : Int) : Bool :="] + lets + ["  " + r, ""]
+    out += ["end SqiGen.QuatAlg", ""]
     changed = write_if_changed(os.path.join(outdir, "QuatAlg.lean"), "\n".join(out))
     return ["QuatAlg.lean regenerated"] if changed else []
 
